@@ -99,6 +99,20 @@ func (p *wkbParser) parseUint32() (uint32, error) {
 	return x, nil
 }
 
+// checkCount returns an error if n elements of at least minSize bytes each
+// cannot fit in the remaining input. It is used to reject element counts that
+// cannot be satisfied before memory is allocated for the elements.
+func (p *wkbParser) checkCount(n uint32, minSize int) error {
+	if uint64(n)*uint64(minSize) > uint64(len(p.body)) {
+		return wkbSyntaxError{"unexpected EOF"}
+	}
+	return nil
+}
+
+// wkbMinGeomSize is the size of the smallest possible WKB geometry (byte
+// order, type and element count).
+const wkbMinGeomSize = 9
+
 func (p *wkbParser) parseGeomAndCoordType() (GeometryType, CoordinatesType, error) {
 	geomCode, err := p.parseUint32()
 	if err != nil {
@@ -225,11 +239,12 @@ func (p *wkbParser) parseLineString(ctype CoordinatesType) (LineString, error) {
 	if err != nil {
 		return LineString{}, err
 	}
-	floats := make([]float64, int(n)*ctype.Dimension())
-
-	if len(p.body) < 8*len(floats) {
-		return LineString{}, wkbSyntaxError{"unexpected EOF"}
+	// Check that the declared number of points fits in the remaining input
+	// before allocating space for them.
+	if err := p.checkCount(n, 8*ctype.Dimension()); err != nil {
+		return LineString{}, err
 	}
+	floats := make([]float64, int(n)*ctype.Dimension())
 
 	var seqData []byte
 	if p.no {
@@ -274,6 +289,9 @@ func (p *wkbParser) parsePolygon(ctype CoordinatesType) (Polygon, error) {
 	if n == 0 {
 		return Polygon{}.ForceCoordinatesType(ctype), nil
 	}
+	if err := p.checkCount(n, 4); err != nil {
+		return Polygon{}, err
+	}
 	rings := make([]LineString, n)
 	for i := range rings {
 		rings[i], err = p.parseLineString(ctype)
@@ -291,6 +309,9 @@ func (p *wkbParser) parseMultiPoint(ctype CoordinatesType) (MultiPoint, error) {
 	}
 	if n == 0 {
 		return MultiPoint{}.ForceCoordinatesType(ctype), nil
+	}
+	if err := p.checkCount(n, wkbMinGeomSize); err != nil {
+		return MultiPoint{}, err
 	}
 	pts := make([]Point, n)
 	for i := uint32(0); i < n; i++ {
@@ -314,6 +335,9 @@ func (p *wkbParser) parseMultiLineString(ctype CoordinatesType) (MultiLineString
 	if n == 0 {
 		return MultiLineString{}.ForceCoordinatesType(ctype), nil
 	}
+	if err := p.checkCount(n, wkbMinGeomSize); err != nil {
+		return MultiLineString{}, err
+	}
 	lss := make([]LineString, n)
 	for i := uint32(0); i < n; i++ {
 		geom, err := p.inner()
@@ -336,6 +360,9 @@ func (p *wkbParser) parseMultiPolygon(ctype CoordinatesType) (MultiPolygon, erro
 	if n == 0 {
 		return MultiPolygon{}.ForceCoordinatesType(ctype), nil
 	}
+	if err := p.checkCount(n, wkbMinGeomSize); err != nil {
+		return MultiPolygon{}, err
+	}
 	polys := make([]Polygon, n)
 	for i := uint32(0); i < n; i++ {
 		geom, err := p.inner()
@@ -357,6 +384,9 @@ func (p *wkbParser) parseGeometryCollection(ctype CoordinatesType) (GeometryColl
 	}
 	if n == 0 {
 		return GeometryCollection{}.ForceCoordinatesType(ctype), nil
+	}
+	if err := p.checkCount(n, wkbMinGeomSize); err != nil {
+		return GeometryCollection{}, err
 	}
 	geoms := make([]Geometry, n)
 	for i := uint32(0); i < n; i++ {
